@@ -165,6 +165,8 @@ type Style struct {
 	Decl   int  // 0 none, 1 standard declaration, 2 declaration with standalone
 	Shuf   bool // shuffle attribute order of the root
 	NSLate bool // declare the assertion namespace on the child elements instead of the root
+	Head   string // Misc (comment, processing instruction, white space) between the declaration and the document element
+	Tail   string // Misc behind the document element (XML 1.0: document ::= prolog element Misc*)
 }
 
 func RandStyle(rng *mrand.Rand) Style {
@@ -183,11 +185,17 @@ func RandStyle(rng *mrand.Rand) Style {
 	s.Decl = rng.Intn(3)
 	s.Shuf = rng.Intn(2) == 0
 	s.NSLate = rng.Intn(3) == 0 && s.PfxA != ""
+	if rng.Intn(4) == 0 {
+		s.Tail = []string{"\n", "\r\n", " \n", "\n\n", "<!-- end of message -->", "\n<!-- generated by sp-toolkit 4.2 -->\n", "<?sp-toolkit done?>", "\t"}[rng.Intn(8)]
+	}
+	if rng.Intn(8) == 0 {
+		s.Head = []string{"\n", "<!-- AuthnRequest -->", "\n<!-- generated by sp-toolkit 4.2 -->\n", "<?sp-toolkit version=\"4.2\"?>"}[rng.Intn(4)]
+	}
 	return s
 }
 
 func (s Style) String() string {
-	return fmt.Sprintf("p=%q a=%q ind=%d decl=%d shuf=%v late=%v", s.PfxP, s.PfxA, len(s.Indent), s.Decl, s.Shuf, s.NSLate)
+	return fmt.Sprintf("p=%q a=%q ind=%d decl=%d shuf=%v late=%v misc=%v/%v", s.PfxP, s.PfxA, len(s.Indent), s.Decl, s.Shuf, s.NSLate, s.Head != "", s.Tail != "")
 }
 
 func (s Style) rootNS(root *Node) {
@@ -226,6 +234,7 @@ func (s Style) finish(root *Node, rng *mrand.Rand) string {
 
 // Wrap adds the XML declaration selected by the style.
 func (s Style) Wrap(body string) string {
+	body = s.Head + body + s.Tail
 	switch s.Decl {
 	case 1:
 		return `<?xml version="1.0" encoding="UTF-8"?>` + "\n" + body
